@@ -16,6 +16,10 @@
 //! 13 aliasmove cross-directory renames that KEEP the name while the destination already holds another long name with
 //!              the same 8.3 alias (STEM~1 in both directories; also ≥ 5 collisions = hash form), with a create+remove
 //!              in the destination in between; then list, open by alias and by long name
+//! 14 maxfat12  a FAT12 volume with the maximal 4084 clusters, filled through the library (all-zero data, `z<n>`
+//!              payloads) up to cluster 0xFEF; then a file, a directory and appends whose chains link INTO the clusters
+//!              0xFF0..0xFF5 (ordinary cluster numbers on such a volume); read back, truncate, remove
+//!              (one history in 364 - one per quick run: it is about 20 000 trace lines long)
 //!
 //! Every history ends with: drop handles, list everything (bounded walk), stats, unmount, mount, list everything, unmount.
 use super::*;
@@ -854,10 +858,71 @@ fn t_aliasmove(e: &mut E, rng: &mut SplitMix64) {
     e.look(&[a, bdir].iter().filter(|d| !d.is_empty()).cloned().collect::<Vec<_>>());
 }
 
+fn t_maxfat12(e: &mut E, rng: &mut SplitMix64) {
+    let cs = e.cx.vol.cs as usize; // 512
+    let clusters = e.cx.vol.clusters as usize; // 4084: cluster numbers 2..=0xFF5
+    e.mkdir("d"); // cluster 2
+    // the big file takes the clusters 3..=0xFEF (a few large writes of zeros), leaving 0xFF0..=0xFF5 free
+    let big = e.cx.new_f();
+    if !e.cx.step(Op::CreateFile { d: 0, path: b("big.bin"), new: big }).is_ok() {
+        return;
+    }
+    let take = clusters - 1 - 6;
+    let mut left = take * cs;
+    while left > 0 {
+        let n = left.min(1000 * cs);
+        if !e.cx.step(Op::WriteAll { f: big, data: vec![0u8; n] }).is_ok() {
+            break;
+        }
+        left -= n;
+    }
+    e.cx.step(Op::Flush(big));
+    e.cx.step(Op::Stats);
+    // a small file whose second cluster is reached through a link into the top range
+    let f = e.cx.new_f();
+    if e.cx.step(Op::CreateFile { d: 0, path: b("d/two clusters.bin"), new: f }).is_ok() {
+        e.cx.step(Op::WriteAll { f, data: content(rng, cs + 40) });
+        e.cx.step(Op::DropF(f));
+    }
+    // the big file grows by one more cluster: link 0xFEF -> 0xFF2 (or so)
+    e.cx.step(Op::WriteAll { f: big, data: content(rng, 300) });
+    e.cx.step(Op::Extents(big));
+    e.cx.step(Op::DropF(big));
+    // the directory grows (its second cluster comes from the top as well)
+    for i in 0..8 {
+        if !e.mkfile(&format!("d/entry with a long name {}.txt", i), Vec::new()) {
+            break;
+        }
+    }
+    e.cx.step(Op::Stats);
+    e.look(&["d"]);
+    // read back across the links
+    e.try_open_file(0, "d/two clusters.bin");
+    let f = e.cx.new_f();
+    if e.cx.step(Op::OpenFile { d: 0, path: b("big.bin"), new: f }).is_ok() {
+        e.cx.step(Op::Seek { f, whence: Whence::End, n: -310 });
+        e.cx.step(Op::Read { f, n: 400 });
+        e.cx.step(Op::Seek { f, whence: Whence::Start, n: (take * cs) as i64 - 5 });
+        e.cx.step(Op::ReadX { f, n: 20 });
+        // cut the tail off again, then once more far down
+        e.cx.step(Op::Seek { f, whence: Whence::Start, n: (take * cs) as i64 - 1 });
+        e.cx.step(Op::Truncate(f));
+        e.cx.step(Op::Stats);
+        e.cx.step(Op::Seek { f, whence: Whence::Start, n: 3 * cs as i64 });
+        e.cx.step(Op::Truncate(f));
+        e.cx.step(Op::DropF(f));
+    }
+    e.cx.step(Op::Stats);
+    e.remove(0, "d/two clusters.bin");
+    e.cx.step(Op::Stats);
+}
+
 fn one(id: String, seed: u64, n: u64, cat: &Catalogue, rng: &mut SplitMix64, sink: &mut Sink) {
-    let template = n % 13;
+    // (the maximal-FAT12 history is long: it takes the place of one alias-move history in four)
+    let template = if n % 13 == 12 && (n / 13) % 28 == 0 { 13 } else { n % 13 };
     let clock = if template == 10 && rng.chance(1, 2) { ClockMode::Tick } else { ClockMode::Const };
     let vol = match template {
+        13 => candidate(VolClass::Mid, 512, 1, 4084, 1 + (n / 13 / 28 % 2) as u8, 512, 0).expect("maximal FAT12 volume"),
         1 => tiny_root16(cat, rng, 1024),
         2 => tiny_any(cat, rng, 1024),
         6 => {
@@ -893,6 +958,7 @@ fn one(id: String, seed: u64, n: u64, cat: &Catalogue, rng: &mut SplitMix64, sin
             9 => t_hugeseek(&mut e, rng),
             11 => t_sessions(&mut e, rng),
             12 => t_aliasmove(&mut e, rng),
+            13 => t_maxfat12(&mut e, rng),
             _ => t_stamps(&mut e, rng),
         }
     }
